@@ -1,8 +1,167 @@
-(* Flt/FltProofs.v -- proofs about the query-filter model (C14): combinators. *)
+(* Flt/FltProofs.v -- proofs about the query-filter evaluator (C14): the combinators.
+   ThresholdMaxAux's loop (with its give-up test and its early success) computes "more than min(n, numKids-1)
+   children match"; And/Or/Nand/Nor/Xor follow their truth tables. *)
 From Coq Require Import List NArith ZArith Bool Strings.Byte Lia.
 From Muscle Require Import Gen.Consts Msg.MsgDefs Msg.MsgModel Flt.FltModel.
 Import ListNotations.
 Local Open Scope N_scope.
 
-Lemma eval_min_nil smatch node n m : eval smatch node (FMin n LNil) m = true.
-Proof. reflexivity. Qed.
+Lemma even_mod2 c : (c mod 2 =? 0) = N.even c.
+Proof.
+  destruct (N.even c) eqn:He.
+  - apply N.even_spec in He. destruct He as [q Hq]. subst c.
+    rewrite N.mul_comm, N.mod_mul by lia. reflexivity.
+  - assert (Ho : N.odd c = true) by (rewrite <- N.negb_even, He; reflexivity).
+    apply N.odd_spec in Ho. destruct Ho as [q Hq]. subst c.
+    replace (2 * q + 1) with (1 + q * 2) by lia. rewrite N.mod_add by lia. reflexivity.
+Qed.
+
+Section Comb.
+  Variable smatch : N -> bytes -> bytes -> bool.
+  Variable node : nodeinfo.
+
+  (* number of children that match: the counter of XorQueryFilter::Matches *)
+  Definition nmatch (kids : flist) (m : msg) : N := xor_count smatch node kids m.
+
+  Lemma nmatch_nil m : nmatch LNil m = 0.
+  Proof. reflexivity. Qed.
+
+  Lemma nmatch_cons k tl m :
+    nmatch (LCons k tl) m = (if eval smatch node k m then 1 else 0) + nmatch tl m.
+  Proof. reflexivity. Qed.
+
+  Lemma nmatch_le_len kids m : nmatch kids m <= flist_len kids.
+  Proof.
+    induction kids as [|k tl IH].
+    - rewrite nmatch_nil. cbn [flist_len]. lia.
+    - rewrite nmatch_cons. cbn [flist_len]. destruct (eval smatch node k m); lia.
+  Qed.
+
+  Lemma thr_loop_nil m t c r : thr_loop smatch node LNil m t c r = false.
+  Proof. reflexivity. Qed.
+
+  Lemma thr_loop_cons k tl m t c r :
+    thr_loop smatch node (LCons k tl) m t c r =
+    if r <? 1 + t - c then false
+    else if eval smatch node k m
+         then (if t <? c + 1 then true else thr_loop smatch node tl m t (c + 1) (r - 1))
+         else thr_loop smatch node tl m t c (r - 1).
+  Proof. reflexivity. Qed.
+
+  (* the loop of ThresholdMaxAux, entered with matchCount <= threshold and the true number of remaining children,
+     answers "threshold < matchCount + number of remaining children that match": neither early exit changes it *)
+  Lemma thr_loop_count kids : forall m t c,
+    c <= t ->
+    thr_loop smatch node kids m t c (flist_len kids) = (t <? c + nmatch kids m).
+  Proof.
+    induction kids as [|k tl IH]; intros m t c Hc.
+    - rewrite thr_loop_nil, nmatch_nil. symmetry. apply N.ltb_ge. lia.
+    - rewrite thr_loop_cons, nmatch_cons. cbn [flist_len].
+      pose proof (nmatch_le_len tl m) as Hle.
+      destruct (N.succ (flist_len tl) <? 1 + t - c) eqn:Hgive.
+      + apply N.ltb_lt in Hgive. symmetry. apply N.ltb_ge.
+        destruct (eval smatch node k m); lia.
+      + apply N.ltb_ge in Hgive.
+        replace (N.succ (flist_len tl) - 1) with (flist_len tl) by lia.
+        destruct (eval smatch node k m) eqn:Hk.
+        * destruct (t <? c + 1) eqn:Hdone.
+          -- apply N.ltb_lt in Hdone. symmetry. apply N.ltb_lt. lia.
+          -- apply N.ltb_ge in Hdone. rewrite IH by lia. f_equal. lia.
+        * rewrite IH by lia. f_equal.
+  Qed.
+
+  (* threshold_early_exit_ok + the documented rule: with k children, a MinimumThresholdQueryFilter(n) matches iff
+     more than min(n, k-1) children match; with no children it always matches *)
+  Theorem eval_min n kids m :
+    eval smatch node (FMin n kids) m =
+    if flist_len kids =? 0 then true else N.min n (flist_len kids - 1) <? nmatch kids m.
+  Proof.
+    cbn [eval]. destruct (flist_len kids =? 0); [reflexivity|].
+    unfold thr_threshold. rewrite thr_loop_count by lia. reflexivity.
+  Qed.
+
+  Theorem eval_max n kids m :
+    eval smatch node (FMax n kids) m =
+    negb (if flist_len kids =? 0 then true else N.min n (flist_len kids - 1) <? nmatch kids m).
+  Proof.
+    cbn [eval]. destruct (flist_len kids =? 0); [reflexivity|].
+    unfold thr_threshold. rewrite thr_loop_count by lia. reflexivity.
+  Qed.
+
+  Theorem eval_xor kids m : eval smatch node (FXor kids) m = N.odd (nmatch kids m).
+  Proof.
+    cbn [eval]. unfold nmatch. rewrite even_mod2, N.negb_even. reflexivity.
+  Qed.
+
+  (* all / some children match *)
+  Fixpoint all_match (kids : flist) (m : msg) : bool :=
+    match kids with LNil => true | LCons k tl => eval smatch node k m && all_match tl m end.
+  Fixpoint some_match (kids : flist) (m : msg) : bool :=
+    match kids with LNil => false | LCons k tl => eval smatch node k m || some_match tl m end.
+
+  Lemma all_match_count kids m : all_match kids m = (nmatch kids m =? flist_len kids).
+  Proof.
+    induction kids as [|k tl IH]; [reflexivity|].
+    cbn [all_match flist_len]. rewrite nmatch_cons, IH.
+    pose proof (nmatch_le_len tl m).
+    destruct (eval smatch node k m); cbn [andb].
+    - destruct (nmatch tl m =? flist_len tl) eqn:E; symmetry.
+      + apply N.eqb_eq in E. apply N.eqb_eq. lia.
+      + apply N.eqb_neq in E. apply N.eqb_neq. lia.
+    - symmetry. apply N.eqb_neq. lia.
+  Qed.
+
+  Lemma some_match_count kids m : some_match kids m = (0 <? nmatch kids m).
+  Proof.
+    induction kids as [|k tl IH]; [reflexivity|].
+    cbn [some_match]. rewrite nmatch_cons, IH.
+    destruct (eval smatch node k m); cbn [orb].
+    - symmetry. apply N.ltb_lt. lia.
+    - reflexivity.
+  Qed.
+
+  (* the convenience classes, for any number of children below 2^32 (a Queue cannot hold more):
+     AndQueryFilter matches iff all children match (and always when it has none), OrQueryFilter iff some child
+     matches (always when it has none -- as its documentation says), Nand/Nor are their negations *)
+  Theorem eval_and kids m :
+    flist_len kids <= c_MUSCLE_NO_LIMIT ->
+    eval smatch node (FAnd kids) m = all_match kids m.
+  Proof.
+    intros Hlen. unfold FAnd. rewrite eval_min, all_match_count.
+    pose proof (nmatch_le_len kids m).
+    destruct (flist_len kids =? 0) eqn:E0.
+    - apply N.eqb_eq in E0. symmetry. apply N.eqb_eq. lia.
+    - apply N.eqb_neq in E0.
+      replace (N.min c_MUSCLE_NO_LIMIT (flist_len kids - 1)) with (flist_len kids - 1) by lia.
+      destruct (nmatch kids m =? flist_len kids) eqn:E.
+      + apply N.eqb_eq in E. apply N.ltb_lt. lia.
+      + apply N.eqb_neq in E. apply N.ltb_ge. lia.
+  Qed.
+
+  Theorem eval_or kids m :
+    eval smatch node (FOr kids) m = if flist_len kids =? 0 then true else some_match kids m.
+  Proof.
+    unfold FOr. rewrite eval_min, some_match_count.
+    destruct (flist_len kids =? 0); [reflexivity|].
+    replace (N.min 0 (flist_len kids - 1)) with 0 by lia. reflexivity.
+  Qed.
+
+  Theorem eval_nand kids m :
+    flist_len kids <= c_MUSCLE_NO_LIMIT ->
+    eval smatch node (FNand kids) m = negb (all_match kids m).
+  Proof.
+    intros Hlen. pose proof (eval_and kids m Hlen) as H.
+    unfold FAnd in H. unfold FNand. rewrite eval_max. rewrite eval_min in H. rewrite H. reflexivity.
+  Qed.
+
+  Theorem eval_nor kids m :
+    eval smatch node (FNor kids) m = negb (if flist_len kids =? 0 then true else some_match kids m).
+  Proof.
+    pose proof (eval_or kids m) as H.
+    unfold FOr in H. unfold FNor. rewrite eval_max. rewrite eval_min in H. rewrite H. reflexivity.
+  Qed.
+
+  (* NOT: a Nor (or Nand) filter with one child *)
+  Corollary eval_not k m : eval smatch node (FNor (LCons k LNil)) m = negb (eval smatch node k m).
+  Proof. rewrite eval_nor. cbn. rewrite orb_false_r. reflexivity. Qed.
+End Comb.
